@@ -277,7 +277,7 @@ class PageRenderer:
             if (
                 page.is_first_page
                 and i == 0
-                and document.rtf_page.border_first
+                and document.rtf_page.border_first is not None
                 and header_copy.text is not None
             ):
                 if isinstance(header_copy.text, pl.DataFrame):
